@@ -10,7 +10,7 @@ trap 'git -C /repo worktree remove --force "$wt" 2>/dev/null' EXIT
 cd "$wt"
 PYTHONPATH="$wt" /venv/bin/python -W ignore "$d/demo.py" >/dev/null 2>&1; r0=$?
 git checkout -q -- . ; git clean -fdq
-git apply "$d/patch.diff" || { echo "PATCH DOES NOT APPLY"; exit 2; }
+git apply "$d/patch.diff" 2>/dev/null || git apply --3way "$d/patch.diff" >/dev/null 2>&1 || { echo "PATCH DOES NOT APPLY"; exit 2; }
 PYTHONPATH="$wt" /venv/bin/python -W ignore "$d/demo.py" >"$wt/.demo1.txt" 2>&1; r1=$?
 echo "demo_without=$r0 demo_with=$r1 : $(tail -1 "$wt/.demo1.txt" | cut -c1-160)"
 rm -f "$wt/.demo1.txt"
